@@ -20,28 +20,46 @@ LEVEL_TEXT = ("Coq theorems over an executable model of the four sampling utilit
               "proved as _refuted theorems about definitions of the former code. Tiled choice uses every option q or q+1 times; an axis "
               "shuffle permutes the values inside every slice produced by sliceaxisix, the slices being pairwise disjoint and covering the "
               "array; outcross shuffling preserves the multiset, never raises the duplicate count, needs at most score+1 passes for every "
-              "oracle and stops only at a 2-exchange local optimum. The model (bit-exact binary64 for pointer distance, pointers and "
-              "cumulative sums) is evaluated inside Coq against the implementation's outputs on generated inputs with scripted draws")
+              "oracle and stops only at a 2-exchange local optimum (a second call then leaves the table alone after one pass); stochastic "
+              "universal sampling is invariant under a common positive scaling of weights and offset. The expressions on which these "
+              "theorems turn (the early return k == 0, tot_fit / k, offset + ptr_dist * arange(k), count_nonzero(p > 0.0) - 1, the while "
+              "test (ix < last) and (cumsum[ix] <= ptr), the argument order of rng.uniform; divmod(nsample, noption) and the slice bounds "
+              "of the tiles; numpy.sum(c-1), score < gbest_score, the unfiltered exchange list, the exchange statement and its undo, "
+              "iterate = not local_optima; the argument order of sliceaxisix and its leaf test) are regenerated from the source on every "
+              "run (Gen/C17_Kernel.v), the four utilities are assembled from them (Model/C17_KernelProg.v), the assembled programs are "
+              "proved equal to the hand model for all inputs, and the property theorems are restated about them, so that a changed "
+              "expression breaks the proof build whatever the sampled cases exercise; the binary64 comparisons of the source are proved "
+              "to be the exact-value comparisons of the model on finite doubles. The model (bit-exact binary64 for pointer distance, "
+              "pointers and cumulative sums) is evaluated inside Coq against the implementation's outputs on generated inputs with scripted draws")
 LEVEL_NOTE = ("trusted: Coq kernel + vm_compute, PrimFloat primitives (Prim2SF gives the exact value of a double); numpy's sum of "
               "fewer than 8 doubles is left-to-right (checked differentially), longer weight vectors are generated with exact sums; "
               "scripted numpy Generator stands for every generator state (draw values are universally quantified in the theorems); "
               "theorems are about the Gallina model, the tie to the code is differential on generated inputs; a second stream with real "
-              "PCG64 generators is checked by the independent predicate only")
+              "PCG64 / RandomState generators is checked by the independent predicate only; the kernel translator "
+              "(harness/translate/c17_kernel.py over pyexpr.py) is trusted to render the located expressions faithfully and pins the "
+              "statement shapes around them textually (fail closed: any other shape is reported as a broken correspondence)")
 TECHNIQUE = "Coq proof over an executable model (Q + PrimFloat); in-Coq vm_compute correspondence with the implementation"
 PROPS = "Props/C17.v"
 IMPORTS = "From Coq Require Import PrimFloat.\nFrom PV Require Import Lib.Common Model.C17_Sampling."
 SHARD = 40
-RULE = ("case = (function in {sus, tiled, axis, sliceaxisix, outcross}, arguments, scripted draws | PCG64 seed); one PRNG; "
-        "sus: 1..12 weights from {small integers with ties, zeros, dyadic grid, m*2^e with e in -20..20, arbitrary doubles for n<8}, "
-        "sizes 1..12/49/98 as int or tuple shapes (incl. () and shapes with a zero extent), offsets {0, pred(tot/k) (preferred when a weight is zero), "
-        "mid, random, placed on a cumulative-weight boundary}; tiled: 0..6 options, sizes 0..20 and 2-D shapes, with/without replacement, with/without p; axis: 1-3 dimensions of "
-        "extent 0..4, every axis subset incl. all, negative and out-of-range axes, C/F/strided views; outcross: 0..4 x 0..4 tables from a small "
-        "pool of individuals, C/transposed/strided views, score+1 scripted exchange-order permutations; non-trivial = weights/values not all "
+RULE = ("case = (function in {sus, sus_session, tiled, axis, sliceaxisix, outcross, audit}, arguments, scripted draws | PCG64 or RandomState seed); one PRNG; "
+        "every scripted case may pass rng=None with the scripted generator installed as the module's global generator; "
+        "sus: 1..12 weights from {small integers with ties, zeros, dyadic grid, m*2^e with e in -20..20, whole vectors scaled by 2^-60..2^-30 or 2^20..2^40 "
+        "with exact zeros next to the tiny weights, arbitrary doubles for n<8} or 13..300 small-integer weights, "
+        "sizes 1..12/49/98/130/200/260 as int or tuple shapes (incl. () and shapes with a zero extent), offsets {0, pred(tot/k) (preferred when a weight is zero), "
+        "mid, random, placed on a cumulative-weight boundary}; sus_session: 2-3 calls on the same element and weight arrays, weights overwritten in place in between; "
+        "tiled: 0..6 or 130..260 options of dtype int64/int32/int16/float64, sizes 0..20, up to 2n+3 and 2-D shapes, with/without replacement, with/without p; axis: 1-3 dimensions of "
+        "extent 0..4, every axis subset incl. all, negative and out-of-range axes, C/F/strided views, and the documented TypeErrors (list/None axis, list array, foreign rng); "
+        "outcross: 0..4 x 0..4 tables from a small pool of individuals (labels also shifted beyond int8/uint8/int32 or colliding modulo 2^8/2^16/2^32), C/transposed/strided views, "
+        "score+1 scripted exchange-order permutations, followed by a second call on the result; results are checked for memory shared with the inputs; "
+        "audit: the public functions of the module and their parameters must be exactly the ones driven here; non-trivial = weights/values not all "
         "equal and output size >= 2; distinct by SHA-256 of the case")
 TRUSTED = ["numpy float64 elementwise + - * / and comparisons are IEEE-754 binary64 (modelled by Coq PrimFloat)",
            "numpy.ndarray.sum of < 8 doubles adds left to right; for >= 8 weights the generator only produces vectors whose partial sums are exact",
            "numpy.cumsum adds left to right",
-           "rngscript.Scripted: shuffle(x) with script pm sets x[i] = x[pm[i]]; choice returns a[ix] for the scripted index list"]
+           "rngscript.Scripted: shuffle(x) with script pm sets x[i] = x[pm[i]]; choice returns a[ix] for the scripted index list",
+           "harness/translate/c17_kernel.py + pyexpr.py: the kernel expressions are located by function and statement shape and rendered into Gallina (Q, Z and PrimFloat sorts); "
+           "Python's tuple assignment evaluates its right-hand side first; numpy.unique(row, return_counts=True) returns the multiplicities of the distinct values"]
 ASSUMPTIONS = ["weights finite, non-negative, positive sum (the documented restrictions of stochastic_universal_sampling)",
                "the uniform offset lies in [0, tot/k) as numpy's Generator.uniform(0, high) guarantees for high > 0",
                "axis values of axis_shuffle are judged by the predicate only when they lie in 0..ndim-1 (negative values are silently ignored by the code: modelled, reported)"]
@@ -51,22 +69,35 @@ def _fh(h): return float.fromhex(h)
 def _hx(x): return float(x).hex()
 
 # ------------------------------------------------------------------ generators
-def _weights(rng, tier):
-    kind = rng.choice(["ints", "ints", "zeros", "grid", "wide", "arb", "ties", "one"])
-    nmax = 12 if kind in ("ints", "grid", "wide", "zeros", "ties") else 7
+def _weights(rng, tier, nfix=None):
+    kind = rng.choice(["ints", "ints", "zeros", "grid", "wide", "arb", "ties", "one", "tiny", "huge", "many"])
+    if nfix is not None and kind == "many": kind = "ints"
+    nmax = 12 if kind in ("ints", "grid", "wide", "zeros", "ties", "tiny", "huge") else 7
     n = rng.randint(1, nmax) if rng.random() < 0.8 else rng.randint(1, 4)
+    if nfix is not None: n = nfix
     if kind == "ints": w = [float(rng.randint(1, 6)) for _ in range(n)]
     elif kind == "ties": w = [float(rng.choice([1, 1, 2, 3])) for _ in range(n)]
     elif kind == "zeros": w = [float(rng.choice([0, 0, 1, 2, 5])) for _ in range(n)]
     elif kind == "grid": w = [rng.randint(0, 2 ** 14) / 256.0 for _ in range(n)]
     elif kind == "wide": w = [rng.randint(0, 7) * 2.0 ** rng.randint(-20, 20) for _ in range(n)]
     elif kind == "one": w = [0.0] * n; w[rng.randrange(n)] = float(rng.choice([1, 3, 0.1]))
+    elif kind in ("tiny", "huge"):
+        # the whole vector far from 1 (still dyadic: every sum is exact): exact zeros next to tiny non-zeros, so that a
+        # tolerance in place of the exact test p > 0.0 (or k == 0) changes the selection
+        sc = 2.0 ** (rng.choice([-60, -40, -30]) if kind == "tiny" else rng.choice([20, 30, 40]))
+        w = [float(rng.choice([0, 1, 1, 2, 3, 5])) * sc for _ in range(n)]
+        if sum(w) <= 0: w[rng.randrange(n)] = sc
+    elif kind == "many":
+        # more elements than a narrow integer type can index (small integer weights: every partial sum is exact)
+        n = rng.choice([130, 200, 260, 300]) if rng.random() < 0.5 else rng.randint(13, 40)
+        w = [float(rng.choice([0, 1, 1, 2, 3])) for _ in range(n)]
     else: w = [rng.choice([0.1, 0.2, 0.3, 0.7, 1e-5, 1e10, 1.0 / 3, 2.5, rng.random(), 0.0]) for _ in range(n)]
     if sum(w) <= 0: w[rng.randrange(n)] = 1.0
     return kind, w
 
 def _size(rng):
     r = rng.random()
+    if r < 0.04: return rng.choice([130, 200, 260, [2, 65], [13, 10, 2]])     # more draws than int8 / uint8 can count
     if r < 0.45: return rng.randint(1, 12)
     if r < 0.55: return rng.choice([49, 98, 6, 3, 10, 20])
     if r < 0.65: return [rng.randint(1, 12)]
@@ -77,16 +108,18 @@ def _size(rng):
 
 def _prod(size): return int(numpy.prod(size)) if not isinstance(size, int) else size
 
-def _sus_case(rng, tier, seeded=False):
-    kind, w = _weights(rng, tier)
+def _sus_case(rng, tier, seeded=False, nfix=None):
+    kind, w = _weights(rng, tier, nfix)
     size = _size(rng)
     k = _prod(size)
     n = len(w)
-    labels = rng.sample(range(-50, 200), n)
+    labels = rng.sample(range(-50, 400), n)
     case = {"fn": "sus", "wkind": kind, "p": [_hx(x) for x in w], "size": size, "a": labels}
     if seeded:
         case["seed"] = rng.randrange(2 ** 32)
+        if rng.random() < 0.3: case["rs"] = True                 # the legacy numpy.random.RandomState is accepted as well
         return case
+    if rng.random() < 0.15: case["rng_none"] = True              # rng=None: the module's global generator must be used
     tot = numpy.array(w, dtype=float).sum()
     d = float(tot / numpy.int64(k)) if k > 0 else 0.0
     okind = rng.choice(["zero", "pred", "mid", "rand", "rand", "boundary", "boundary", "boundary"])
@@ -106,6 +139,20 @@ def _sus_case(rng, tier, seeded=False):
     case.update({"off": _hx(off), "okind": okind, "perm": perm})
     return case
 
+def _sus_session_case(rng, tier):
+    """two or three calls on the SAME element and weight arrays, the weights overwritten in place between the calls: every
+    result must be a function of the state at its call (no cache keyed by the identity of an array)"""
+    n = rng.randint(2, 6)
+    steps = []
+    for _ in range(rng.randint(2, 3)):
+        st = _sus_case(rng, tier, nfix=n)
+        while _prod(st["size"]) > 30: st = _sus_case(rng, tier, nfix=n)
+        st.pop("rng_none", None)
+        steps.append(st)
+    a = steps[0]["a"]
+    for st in steps: st["a"] = a
+    return {"fn": "sus_session", "a": a, "steps": steps}
+
 def _tiled_case(rng, tier, seeded=False):
     n = rng.choice([0, 1, 1, 2, 3, 3, 4, 5, 6])
     a = rng.sample(range(-20, 60), n)
@@ -114,15 +161,22 @@ def _tiled_case(rng, tier, seeded=False):
     elif r < 0.8: size = [rng.randint(0, 4), rng.randint(1, 5)]
     elif r < 0.9: size = [rng.randint(1, 20)]
     else: size = [rng.randint(1, 3), rng.randint(1, 3), rng.randint(1, 3)]
-    ns = _prod(size)
     replace = rng.random() < 0.2
     pk = rng.choice(["none", "none", "uniform", "skew"])
-    case = {"fn": "tiled", "a": a, "size": size, "replace": replace, "pkind": pk}
+    if rng.random() < 0.04:
+        # more options / samples than a narrow integer type can count
+        n = rng.choice([130, 200, 260]); a = rng.sample(range(-200, 400), n)
+        size = rng.choice([n - 1, n, n + 1, 2 * n + 3, [3, n]]); ns = _prod(size); replace = False; pk = "none"
+    case = {"fn": "tiled", "a": a, "size": size, "replace": replace, "pkind": pk,
+            "adtype": rng.choice(["int64", "int64", "int32", "int16", "float64"])}
+    if not seeded and rng.random() < 0.15: case["rng_none"] = True
+    if seeded and rng.random() < 0.3: case["rs"] = True
     if n and pk == "uniform": case["p"] = [1.0 / n] * n
     elif n and pk == "skew":
         raw = [rng.randint(1, 8) for _ in range(n)]; s = float(sum(raw)); case["p"] = [x / s for x in raw]
         case["p"][-1] = 1.0 - sum(case["p"][:-1])
     else: case["p"] = None
+    ns = _prod(size)
     if seeded:
         if n == 0: case["replace"] = False
         case["seed"] = rng.randrange(2 ** 32); return case
@@ -152,7 +206,12 @@ def _axis_case(rng, tier, seeded=False):
     layout = rng.choice(["C", "C", "F", "strided"])
     case = {"fn": "axis", "shape": shape, "axis": axis, "data": data, "layout": layout}
     if seeded:
-        case["seed"] = rng.randrange(2 ** 32); return case
+        case["seed"] = rng.randrange(2 ** 32)
+        r = rng.random()
+        if r < 0.3: case["rs"] = True
+        elif r < 0.45: case["bad"] = rng.choice(["axis_list", "axis_none", "a_list", "rng_bad"])   # the documented TypeErrors
+        return case
+    if rng.random() < 0.15: case["rng_none"] = True
     ax = [axis] if isinstance(axis, int) else list(axis)
     fixed = [d for d in range(nd) if d in ax]
     free = [d for d in range(nd) if d not in ax]
@@ -186,10 +245,18 @@ def _outcross_case(rng, tier, seeded=False):
     if kind == "random": x = [[rng.randint(1, pool) for _ in range(m)] for _ in range(nc)]
     elif kind == "rowdup": x = [[i + 1] * m for i in range(nc)]
     else: x = [[(i + j) % max(m, 1) for j in range(m)] for i in range(nc)]
+    if rng.random() < 0.2:
+        off = rng.choice([-3, 126, 254, 1000, 2 ** 31 - 3]); x = [[v + off for v in r] for r in x]   # labels beyond narrow integer types
+    elif rng.random() < 0.15:
+        # distinct individuals whose labels collide in a narrower integer type
+        x = [[v + rng.choice([0, 0, 256, 65536, 2 ** 32]) for v in r] for r in x]; kind = "wrap"
     layout = rng.choice(["C", "C", "T", "strided"])
     case = {"fn": "outcross", "x": x, "nc": nc, "m": m, "xkind": kind, "layout": layout}
     if seeded:
-        case["seed"] = rng.randrange(2 ** 32); return case
+        case["seed"] = rng.randrange(2 ** 32)
+        if rng.random() < 0.3: case["rs"] = True
+        return case
+    if rng.random() < 0.15: case["rng_none"] = True
     N = nc * m
     npairs = N * (N - 1) // 2
     perms = []
@@ -223,8 +290,11 @@ def _fixed_cases():
 
 def gen_cases(rng, tier):
     q = tier == "quick"
-    cases = _fixed_cases()
+    cases = [{"fn": "audit"}] + _fixed_cases()
+    for b in ("axis_list", "axis_none", "a_list", "rng_bad"):          # the documented argument checks of axis_shuffle
+        cases.append({"fn": "axis", "shape": [2, 3], "axis": 0, "data": [5, 1, 4, 2, 3, 0], "layout": "C", "seed": 7, "bad": b})
     for _ in range(260 if q else 3000): cases.append(_sus_case(rng, tier))
+    for _ in range(40 if q else 400): cases.append(_sus_session_case(rng, tier))
     for _ in range(110 if q else 1200): cases.append(_tiled_case(rng, tier))
     for _ in range(120 if q else 1200): cases.append(_axis_case(rng, tier))
     for _ in range(50 if q else 400): cases.append(_sax_case(rng, tier))
@@ -285,39 +355,112 @@ def run_impl(case):
     with numpy.errstate(all="ignore"):
         return _run_impl(case)
 
+class _LimitedRS(numpy.random.RandomState):
+    """the legacy generator class, with the same guard on the number of shuffles"""
+    def __init__(self, seed, limit):
+        super().__init__(seed)
+        self.limit = limit; self.nshuffle = 0
+    def shuffle(self, x):
+        self.nshuffle += 1
+        if self.nshuffle > self.limit:
+            raise RuntimeError("more than %d shuffle passes requested" % self.limit)
+        return super().shuffle(x)
+
+def _seeded_rng(case, limit=None):
+    if case.get("rs"):
+        return _LimitedRS(case["seed"], limit) if limit is not None else numpy.random.RandomState(case["seed"])
+    return _Limited(case["seed"], limit) if limit is not None else numpy.random.Generator(numpy.random.PCG64(case["seed"]))
+
+class _Global:
+    """rng=None must mean the module's global generator: install `rng` as sampling.global_prng for the duration of the call"""
+    def __init__(self, sampling, case, rng):
+        self.m, self.on, self.rng = sampling, bool(case.get("rng_none")), rng
+    def __enter__(self):
+        if self.on: self.saved = self.m.global_prng; self.m.global_prng = self.rng
+        return None if self.on else self.rng
+    def __exit__(self, *a):
+        if self.on: self.m.global_prng = self.saved
+
+# the public entry points this module drives, with the parameters it varies (A.1 of tools/PHASE2_BRIEF.md); anything else that
+# appears in the anchored module makes the audit case fail until it is classified here
+COVERED = {"stochastic_universal_sampling": ["a", "p", "size", "rng"],
+           "tiled_choice": ["a", "size", "replace", "p", "rng"],
+           "axis_shuffle": ["a", "axis", "rng"],
+           "outcross_shuffle": ["xconfig", "rng"]}
+SKIPPED = {"stochastic_universal_sampling(size=None)": "the default size is not usable: numpy.prod(None) is None and the division raises TypeError",
+           "tiled_choice(size=None)": "same: numpy.empty(None) raises",
+           "tiled_choice(a: Integral)": "documented but not implemented (a.dtype is read first); outside the property statement",
+           "outcross_shuffle(xconfig.ndim != 2)": "the documented shape is (ncross, nparent)"}
+
+def _audit():
+    import inspect
+    from pybrops.core.random import sampling
+    from pybrops.core.util import array
+    found = {}
+    for name, obj in vars(sampling).items():
+        if name.startswith("_"): continue
+        if inspect.isfunction(obj) and obj.__module__ == sampling.__name__:
+            found[name] = list(inspect.signature(obj).parameters)
+        elif inspect.isclass(obj) and obj.__module__ == sampling.__name__:
+            found[name] = "class"
+    return {"functions": found, "all": sorted(getattr(sampling, "__all__", [])),
+            "sliceaxisix": list(inspect.signature(array.sliceaxisix).parameters)}
+
+def _sus_call(sampling, a, p, size, case):
+    from rngscript import Scripted
+    out = {}
+    p0, a0 = p.copy(), a.copy()
+    out["order"] = [int(i) for i in p.argsort()[::-1]]
+    if "seed" in case: rng = _seeded_rng(case)
+    else: rng = Scripted(uniforms=[_fh(case["off"])], perms=[case["perm"]])
+    try:
+        with _Global(sampling, case, rng) as arg:
+            r = sampling.stochastic_universal_sampling(a, p, size, arg)
+        out["aliases"] = bool(isinstance(r, numpy.ndarray) and r.size and (numpy.shares_memory(r, a) or numpy.shares_memory(r, p)))
+        r = numpy.asarray(r)
+        out["shape"] = list(r.shape); out["out"] = [int(x) for x in r.ravel()]; out["dtype"] = str(r.dtype)
+    except Exception as e:
+        out["raised"] = type(e).__name__; out["msg"] = str(e)[:200]
+    if "seed" not in case:
+        out["log"] = _log(rng); out["left"] = [len(rng.q["uniform"]), len(rng.q["perm"])]
+    out["inputs_unchanged"] = bool(numpy.array_equal(p, p0) and numpy.array_equal(a, a0))
+    return out
+
 def _run_impl(case):
     from rngscript import Scripted
     from pybrops.core.random import sampling
     from pybrops.core.util.array import sliceaxisix
     fn = case["fn"]
     out = {}
+    if fn == "audit":
+        return _audit()
     if fn == "sus":
         p = numpy.array([_fh(h) for h in case["p"]], dtype=float)
         a = numpy.array(case["a"], dtype=numpy.int64)
         size = case["size"] if isinstance(case["size"], int) else tuple(case["size"])
-        p0, a0 = p.copy(), a.copy()
-        out["order"] = [int(i) for i in p.argsort()[::-1]]
-        if "seed" in case: rng = numpy.random.Generator(numpy.random.PCG64(case["seed"]))
-        else: rng = Scripted(uniforms=[_fh(case["off"])], perms=[case["perm"]])
-        try:
-            r = sampling.stochastic_universal_sampling(a, p, size, rng)
-            r = numpy.asarray(r)
-            out["shape"] = list(r.shape); out["out"] = [int(x) for x in r.ravel()]
-        except Exception as e:
-            out["raised"] = type(e).__name__; out["msg"] = str(e)[:200]
-        if "seed" not in case:
-            out["log"] = _log(rng); out["left"] = [len(rng.q["uniform"]), len(rng.q["perm"])]
-        out["inputs_unchanged"] = bool(numpy.array_equal(p, p0) and numpy.array_equal(a, a0))
-        return out
-    if fn == "tiled":
+        return _sus_call(sampling, a, p, size, case)
+    if fn == "sus_session":
+        # one pair of arrays for the whole session; the weights are overwritten in place between the calls
         a = numpy.array(case["a"], dtype=numpy.int64)
+        p = numpy.zeros(len(case["a"]), dtype=float)
+        outs = []
+        for st in case["steps"]:
+            p[:] = [_fh(h) for h in st["p"]]
+            size = st["size"] if isinstance(st["size"], int) else tuple(st["size"])
+            outs.append(_sus_call(sampling, a, p, size, st))
+        return {"steps": outs}
+    if fn == "tiled":
+        a = numpy.array(case["a"], dtype=case.get("adtype", "int64"))
         size = case["size"] if isinstance(case["size"], int) else tuple(case["size"])
         p = None if case.get("p") is None else numpy.array(case["p"], dtype=float)
         a0 = a.copy()
-        if "seed" in case: rng = numpy.random.Generator(numpy.random.PCG64(case["seed"]))
+        if "seed" in case: rng = _seeded_rng(case)
         else: rng = _scripted(choices=[case["choice"]], perms=[] if case["perm"] is None else [case["perm"]])
         try:
-            r = numpy.asarray(sampling.tiled_choice(a, size, case["replace"], p, rng))
+            with _Global(sampling, case, rng) as arg:
+                r = sampling.tiled_choice(a, size, case["replace"], p, arg)
+            out["aliases"] = bool(isinstance(r, numpy.ndarray) and r.size and numpy.shares_memory(r, a))
+            r = numpy.asarray(r)
             out["shape"] = list(r.shape); out["out"] = [int(x) for x in r.ravel()]; out["dtype"] = str(r.dtype)
         except Exception as e:
             out["raised"] = type(e).__name__; out["msg"] = str(e)[:200]
@@ -329,10 +472,19 @@ def _run_impl(case):
         base, view = _mk_view(case["data"], case["shape"], case["layout"])
         base0 = base.copy()
         axis = case["axis"] if isinstance(case["axis"], int) else tuple(case["axis"])
-        if "seed" in case: rng = numpy.random.Generator(numpy.random.PCG64(case["seed"]))
+        if "seed" in case: rng = _seeded_rng(case)
         else: rng = Scripted(perms=case["perms"])
+        bad = case.get("bad")
+        arr = view
+        if bad == "axis_list": axis = list(axis) if isinstance(axis, tuple) else [axis]
+        elif bad == "axis_none": axis = None
+        elif bad == "a_list": arr = view.tolist()
+        elif bad == "rng_bad":
+            import random as _random
+            rng = _random.Random(0)
         try:
-            r = sampling.axis_shuffle(view, axis, rng)
+            with _Global(sampling, case, rng) as arg:
+                r = sampling.axis_shuffle(arr, axis, arg)
             out["ret_none"] = r is None
         except Exception as e:
             out["raised"] = type(e).__name__; out["msg"] = str(e)[:200]
@@ -366,10 +518,11 @@ def _run_impl(case):
         base, view = _mk_view(flat, [nc, m], case["layout"])
         base0 = base.copy()
         s0 = _score(case["x"])
-        if "seed" in case: rng = _Limited(case["seed"], s0 + 2)
+        if "seed" in case: rng = _seeded_rng(case, s0 + 2)
         else: rng = Scripted(perms=case["perms"])
         try:
-            r = sampling.outcross_shuffle(view, rng)
+            with _Global(sampling, case, rng) as arg:
+                r = sampling.outcross_shuffle(view, arg)
             out["ret_none"] = r is None
         except Exception as e:
             out["raised"] = type(e).__name__; out["msg"] = str(e)[:200]
@@ -380,6 +533,19 @@ def _run_impl(case):
             mask = numpy.ones(base.shape, dtype=bool); mask[tuple(slice(1, 2 * s + 1, 2) for s in (nc, m))] = False
             out["outside_unchanged"] = bool(numpy.array_equal(base[mask], base0[mask]))
         else: out["outside_unchanged"] = True
+        if "raised" not in out:
+            # a second call on the result (same array object): a local optimum is left alone after exactly one pass
+            N = nc * m
+            rng2 = _Limited(case.get("seed", 0) + 1, 1) if "seed" in case else Scripted(perms=[list(range(N * (N - 1) // 2))])
+            before = numpy.ascontiguousarray(view).copy()
+            again = {}
+            try:
+                sampling.outcross_shuffle(view, rng2)
+                again["same"] = bool(numpy.array_equal(numpy.ascontiguousarray(view), before))
+                again["passes"] = rng2.nshuffle if "seed" in case else sum(1 for e in rng2.log if e[0] == "shuffle")
+            except Exception as e:
+                again["raised"] = type(e).__name__; again["msg"] = str(e)[:200]
+            out["again"] = again
         return out
     raise ValueError(fn)
 
@@ -411,6 +577,11 @@ def emit_case(case, out):
     if "seed" in case: return None
     if "exc" in out: return "false"
     fn = case["fn"]
+    if fn == "audit": return None
+    if fn == "sus_session":
+        terms = [emit_case(st, o) for st, o in zip(case["steps"], out["steps"])]
+        if len(terms) != len(case["steps"]) or any(t is None for t in terms): return "false"
+        return "(%s)" % " && ".join(terms)
     if fn == "sus":
         p = [_fh(h) for h in case["p"]]
         k = _prod(case["size"])
@@ -502,6 +673,28 @@ def _pred_sus(case, out):
             far = "" if _floor(e) - 1 <= c <= _ceil(e) + 1 else " - more than one draw away"
             bad.append("element %d selected %d times, expected count %s (floor %d, ceil %d)%s" % (i, c, float(e), _floor(e), _ceil(e), far))
     if not out["inputs_unchanged"]: bad.append("input arrays modified")
+    if out.get("aliases"): bad.append("the result shares memory with an input array")
+    if "left" in out and k > 0 and out["left"] != [0, 0]:
+        bad.append("the offset and the shuffle were not both drawn from the generator in use (%s): requests %r"
+                   % ("rng=None: the module's global generator" if case.get("rng_none") else "the rng argument", [e[0] for e in out.get("log", [])]))
+    return bad
+
+def _pred_session(case, out):
+    bad = []
+    if len(out.get("steps", [])) != len(case["steps"]): return ["session: %d of %d calls recorded" % (len(out.get("steps", [])), len(case["steps"]))]
+    for i, (st, o) in enumerate(zip(case["steps"], out["steps"])):
+        bad += ["call %d on the same arrays: %s" % (i, b) for b in _pred_sus(st, o)]
+    return bad
+
+def _pred_audit(case, out):
+    bad = []
+    for name, params in out["functions"].items():
+        if name not in COVERED: bad.append("entry point %s%r of pybrops.core.random.sampling is neither driven nor classified by the C17 check" % (name, params))
+        elif params != COVERED[name]: bad.append("parameters of %s are %r, the C17 check drives %r" % (name, params, COVERED[name]))
+    for name in COVERED:
+        if name not in out["functions"]: bad.append("entry point %s is missing from pybrops.core.random.sampling" % name)
+    if sorted(out["all"]) != sorted(COVERED): bad.append("__all__ of the module is %r" % (out["all"],))
+    if out["sliceaxisix"] != ["shape", "axis"]: bad.append("parameters of sliceaxisix are %r" % (out["sliceaxisix"],))
     return bad
 
 def _pred_tiled(case, out):
@@ -522,6 +715,12 @@ def _pred_tiled(case, out):
         if sum(1 for c in cnt if c == qu + 1) != re and re != 0: bad.append("%d options used %d times, remainder is %d" % (sum(1 for c in cnt if c == qu + 1), qu + 1, re))
         if max(cnt) - min(cnt) > 1: bad.append("option usage differs by more than one: %r" % cnt)
     if not out["inputs_unchanged"]: bad.append("option array modified")
+    if out.get("aliases"): bad.append("the result shares memory with the option array")
+    if "left" in out and out["left"] != [0, 0]:
+        bad.append("the draws were not all taken from the generator in use (%s): requests %r"
+                   % ("rng=None: the module's global generator" if case.get("rng_none") else "the rng argument", [e[0] for e in out.get("log", [])]))
+    want = str(numpy.dtype(case.get("adtype", "int64")))
+    if out.get("dtype") != want: bad.append("the result has dtype %s, the options have dtype %s" % (out.get("dtype"), want))
     return bad
 
 def _pred_axis(case, out):
@@ -530,6 +729,12 @@ def _pred_axis(case, out):
     ax = [case["axis"]] if isinstance(case["axis"], int) else list(case["axis"])
     inrange = all(0 <= v < nd for v in ax)
     old = numpy.array(case["data"], dtype=numpy.int64).reshape(shape)
+    if case.get("bad"):
+        # the documented argument checks: a must be an ndarray, axis an Integral or a tuple, rng a Generator / RandomState
+        bad = []
+        if out.get("raised") != "TypeError": bad.append("axis_shuffle accepted %s (TypeError expected, got %s)" % (case["bad"], out.get("raised", "no exception")))
+        if out["out"] != case["data"]: bad.append("array modified by a rejected call")
+        return bad
     if "raised" in out:
         if all(d in ax for d in range(nd)) and old.size > 0: return []           # nothing left to shuffle: a[s] is a scalar
         if out["raised"] == "ScriptExhausted" or "scripted" in out.get("msg", ""):
@@ -591,6 +796,12 @@ def _pred_outcross(case, out):
     if out["passes"] < 1: bad.append("no pass over the exchanges was made")
     if not out["outside_unchanged"]: bad.append("memory outside the table view modified")
     if not out.get("ret_none"): bad.append("outcross_shuffle returned a value")
+    ag = out.get("again")
+    if ag is not None:
+        if "raised" in ag: bad.append("a second call on the result did not stop after one pass (%s: %s)" % (ag["raised"], ag.get("msg", "")))
+        else:
+            if not ag["same"]: bad.append("a second call on the result changed the table again")
+            if ag["passes"] != 1: bad.append("a second call on the result made %d passes" % ag["passes"])
     return bad
 
 def pred(case, out):
@@ -598,7 +809,8 @@ def pred(case, out):
     if "exc" in out:
         return ["harness driver raised %s: %s" % (out["exc"], out["msg"])]
     fn = case["fn"]
-    bad = {"sus": _pred_sus, "tiled": _pred_tiled, "axis": _pred_axis, "sliceaxisix": _pred_sax, "outcross": _pred_outcross}[fn](case, out)
+    bad = {"sus": _pred_sus, "tiled": _pred_tiled, "axis": _pred_axis, "sliceaxisix": _pred_sax, "outcross": _pred_outcross,
+           "sus_session": _pred_session, "audit": _pred_audit}[fn](case, out)
     seen = []
     for b in bad:
         if b not in seen: seen.append(b)
@@ -648,6 +860,17 @@ def classify(case, out, clauses):
     """only the floor/ceiling rounding of the binary64 pointers is a known finding, and only when every count is within one draw of
     floor/ceiling (C17_sus_float_within_one); a zero-weight element in the output or an exception for an output size of zero
     (both repaired) are violations"""
+    if case["fn"] == "sus_session" and clauses:
+        # every failing call of the session must itself be the known rounding pattern
+        import re
+        per = {}
+        for c in clauses:
+            m = re.match(r"call (\d+) on the same arrays: (.*)$", c, re.S)
+            if not m: return None
+            per.setdefault(int(m.group(1)), []).append(m.group(2))
+        if all(i < len(case["steps"]) and classify(case["steps"][i], out["steps"][i], cl) == "C17-sus-rounding-floor-ceil" for i, cl in per.items()):
+            return "C17-sus-rounding-floor-ceil"
+        return None
     if case["fn"] == "sus" and clauses:
         if all(("selected" in c and "zero weight" not in c and "more than one draw away" not in c) for c in clauses) and _rounding_case(case, out):
             return "C17-sus-rounding-floor-ceil"
@@ -657,6 +880,7 @@ def classify(case, out, clauses):
 def nontrivial(case, out):
     fn = case["fn"]
     if fn == "sus": return len(set(case["p"])) >= 2 and _prod(case["size"]) >= 2
+    if fn == "sus_session": return any(nontrivial(st, o) for st, o in zip(case["steps"], out.get("steps", [])))
     if fn == "tiled": return len(case["a"]) >= 2 and _prod(case["size"]) >= 2
     if fn == "axis": return int(numpy.prod(case["shape"])) >= 2 and len(case["shape"]) >= 2
     if fn == "sliceaxisix": return len(case["shape"]) >= 2 and len(case["axis"]) >= 1
@@ -665,7 +889,10 @@ def nontrivial(case, out):
 
 def describe(case, out):
     fn = case["fn"]
-    d = {"fn": fn, "stream": "pcg64" if "seed" in case else "scripted", "raised": out.get("raised", out.get("exc", "no"))}
+    d = {"fn": fn, "stream": ("randomstate" if case.get("rs") else "pcg64") if "seed" in case else "scripted", "raised": out.get("raised", out.get("exc", "no")),
+         "rng_none": bool(case.get("rng_none"))}
+    if fn == "sus_session": d["calls"] = len(case["steps"])
+    if case.get("bad"): d["bad_argument"] = case["bad"]
     if fn == "sus":
         k = _prod(case["size"])
         d.update({"weights": case["wkind"], "offset": case.get("okind", "pcg64"), "k": "0" if k == 0 else ("1" if k == 1 else ("2-12" if k <= 12 else ">12")),
@@ -673,7 +900,7 @@ def describe(case, out):
                   "has_zero_weight": any(_fh(h) == 0.0 for h in case["p"]), "has_ties": len(set(case["p"])) < len(case["p"]),
                   "exact_pointers": _sus_exact(case) if "off" in case else "n/a"})
     elif fn == "tiled":
-        d.update({"noption": len(case["a"]), "replace": case["replace"], "p": case["pkind"],
+        d.update({"noption": min(len(case["a"]), 7), "replace": case["replace"], "p": case["pkind"], "dtype": case.get("adtype", "int64"),
                   "remainder": (_prod(case["size"]) % len(case["a"])) if case["a"] else "n/a"})
     elif fn == "axis":
         ax = [case["axis"]] if isinstance(case["axis"], int) else list(case["axis"])
@@ -718,3 +945,10 @@ def shrink(case, fails):
             if fails(t): cur = t
             else: break
     return cur
+
+
+def translate(repo, gen_dir):
+    """regenerate Gen/C17_Kernel.v (the kernel expressions of the four sampling utilities and of sliceaxisix) from the current
+    source; fail closed"""
+    from translate import c17_kernel
+    return [c17_kernel.translate(repo, gen_dir)]
